@@ -37,6 +37,7 @@ ASSUMPTIONS = [
     'echo=False is passed through run(**kwargs) so that the expected output is what the child printed with \\n -> \\r\\n',
 ]
 BUDGET = {'quick': 280, 'thorough': 1500}
+PROBE_TIMEOUT = 60
 
 TOKENS = ['NAME?', 'PASS:', 'Q3>']     # prompts the child waits on
 SAY = 'OK#'                            # printed without reading: its event never sends anything
@@ -354,7 +355,7 @@ def run_shard(spec, seed, idx, deadline_ts):
     col = Collector()
 
     def body(case, c):
-        with case_watchdog(120, 'C12 run() dialogue'):
+        with case_watchdog(60, 'C12 run() dialogue'):
             check_case(case, c)
     run_batches(body, cases(), spec['n'], seed * 1000 + idx, col, batch=30, shrink=False, deadline_ts=deadline_ts)
     return col
